@@ -173,10 +173,25 @@ def run(ctx: Ctx):
            "the caller's decoding options (num_starts, select_best, ...) reach the decoding strategy unchanged in every mode, including the `evaluate` replay" if (fwd and not reass) else
            "decoding_kwargs is rebound / filtered before get_decoding_strategy: a replay with the returned actions runs under other decoding options than the rollout",
            construct="ConstructivePolicy.forward:decoding-kwargs")
-    src = ast.unparse(cp.node)
-    okll = "get_log_likelihood(logprobs, actions," in src.replace("\n", " ").replace("  ", " ")
-    post = [n for n in ast.walk(cp.node) if isinstance(n, ast.Assign) and "post_decoder_hook" in ast.unparse(n.value)]
-    okpost = len(post) == 1 and ast.unparse(post[0].targets[0]).replace(" ", "") == "(logprobs,actions,td,env)"
+    itc = vg.Interp(ctx.repo, cp.cls, inline_policy=lambda f, a: False)
+    frc = itc.run_function(cp)
+    roots = [v for v in list(frc.locals.values()) + [frc.ret] if isinstance(v, vg.S)]
+    glls, seen_ = [], set()
+    for r_ in roots:
+        for n in vg.walk(r_):
+            if n.id not in seen_ and (nf._fn(n) or "").endswith(":get_log_likelihood"):
+                glls.append(n)
+            seen_.add(n.id)
+    okll = okpost = False
+    if len(glls) == 1 and len(glls[0].args) >= 3:
+        lp_, ac_ = glls[0].args[1], glls[0].args[2]
+        # both are items 0 / 1 of ONE post_decoder_hook(...) result
+        okpost = lp_.op == "sub" and ac_.op == "sub" and lp_.args[0] is ac_.args[0] and vg.is_const(lp_.args[1], 0) and vg.is_const(ac_.args[1], 1) and \
+            lp_.args[0].op == "meth" and lp_.args[0].args[1] == "post_decoder_hook"
+        # ... and the `actions` entry of the output dict is that same tensor
+        outs = [n for r_ in roots for n in vg.walk(r_) if n.op == "store" and vg.is_const(n.args[1], "actions")] + \
+            [it_ for r_ in roots for n in vg.walk(r_) if n.op == "dict" for it_ in n.args if it_.op == "item" and vg.is_const(it_.args[0], "actions")]
+        okll = bool(outs) and all((o.args[2] if o.op == "store" else o.args[1]) is ac_ for o in outs)
     ctx.ob("C11.c", "ConstructivePolicy.forward:ll-of-returned-actions", okll and okpost, cp.loc,
            "log_likelihood = get_log_likelihood(logprobs, actions, ...) with (logprobs, actions) from post_decoder_hook, the same `actions` that is returned", construct="ConstructivePolicy.forward:ll-actions")
     # ---- e: PPO
